@@ -35,6 +35,7 @@ def run(ctx):
     ctx.step(lr_handlers, ctx)
     ctx.step(c03.handler_rules, ctx, "C20.lr-writes")
     ctx.step(c16.noexcept_rule, ctx, "C20.noexcept")
+    ctx.step(noexcept_user, ctx)
     ctx.step(c06.capture, ctx, "C20.deferred")
 
 
@@ -151,3 +152,37 @@ def lr_handlers(ctx):
             ok = all(f.dominates(f.pos_of(ap), f.pos_of(s["st"])) for s in stores)
             ctx.ob(rid, ok, f.loc(ap), "the first application precedes every store to the protocol flags (a throw leaves them untouched)",
                    "" if ok else "a flag is flipped before the first application can throw", fn=f.label, inst=f.qname)
+
+
+def noexcept_user(ctx):
+    """a library function that is noexcept for the instantiated payload must not let an exception of user code reach
+    its boundary (std::terminate instead of 'propagates as documented')"""
+    rid = "C20.noexcept-user"
+    ctx.rule(rid, "functions that are noexcept in this instantiation contain no potentially-throwing call outside a "
+             "non-rethrowing catch-all (a throwing payload operation would terminate the process)", floor=20)
+    for f in ctx.fb.functions():
+        if not common.in_files(f, FILES) or not f.noexcept or f.defaulted or f.kind == "dtor":
+            continue
+        bad = None
+        protected = set()
+        for t in [s_ for s_ in f.stmts.values() if s_["k"] == "CXXTryStmt"]:
+            hs = [f.s(h) for h in t["handlers"]]
+            if any(h.get("all") for h in hs) and not any(d["k"] == "CXXThrowExpr" for h in hs for d in f.descendants(h)):
+                protected |= {d["id"] for d in f.descendants(f.s(t["try"]))}
+        for st in f.stmts.values():
+            if st["id"] in protected:
+                continue
+            c = st.get("callee") if st["k"] in CALLS or st["k"] in CTORS else None
+            if not c:
+                continue
+            if c.get("noexcept") or c.get("fq") in ("std::move", "std::forward"):
+                continue
+            if st["k"] in CTORS and (c.get("defaulted") or st.get("t", "").startswith("std::chrono::") or not st["args"]):
+                continue
+            # only user code counts: functor calls, and operations on the payload type of the instantiation
+            sig = " ".join([c.get("qname", "")] + c.get("params", []))
+            if not (is_user_call(f, st) or "vdrv::" in sig):
+                continue
+            bad = "%s at %s may throw" % (c.get("qname", "?")[:80], f.loc(st))
+            break
+        ctx.ob(rid, bad is None, f.where, "noexcept %s cannot be left by an exception" % f.name, bad or "", fn=f.label, inst=f.qname)
